@@ -21,10 +21,12 @@ Record item := mk_item {
 }.
 
 Record lbuf := mk_lbuf {
-  data : list N;     (* l.data (len = cap on every path that starts from the pool) *)
+  data : list N;     (* the backing array of l.data up to its CAPACITY (length data = cap(l.data)) *)
+  blen : nat;        (* len(l.data); the capacity survives Reset / Put / Get, the length does not *)
   wpos : nat;        (* writeBufPos *)
   rpos : nat;        (* readBufPos *)
-  limit : N          (* memPool.MaxBufferSize *)
+  limit : N;         (* memPool.MaxBufferSize *)
+  initsz : nat       (* initialBufferSize = the pool's initialElementSize (page size) *)
 }.
 
 Definition hsize (v4 : bool) : nat := if v4 then 13 else 37.   (* EPHashSizeV4 / EPHashSizeV6 *)
@@ -54,54 +56,71 @@ Definition record_bytes (it : item) (old_hash : list N) : list N :=
 
 (* NewLocalBufferPool + Get + Assign: a zeroed slice of the initial size *)
 Definition buf_new (init : nat) (lim : N) : lbuf :=
-  {| data := repeat 0%N init; wpos := 0; rpos := 0; limit := lim |}.
+  {| data := repeat 0%N init; blen := init; wpos := 0; rpos := 0; limit := lim; initsz := init |}.
 
 (* LocalBuffer.Add. Result Ok (b', ok); Panic where Go indexes / slices out of range (this also
    stands for the 4-byte unsafe store running past the slice). *)
 Definition buf_add (b : lbuf) (it : item) : res (lbuf * bool) :=
-  let len := length (data b) in
+  let len := blen b in
   let need := wpos b + length (i_hash it) + add_size in
-  let grown : option (list N) :=
-    if need <? len then Some (data b)
+  let grown : option (list N * nat) :=
+    if need <? len then Some (data b, len)
     else
       let newsize := N.min (limit b) (2 * N.of_nat len) in
       if (limit b <=? N.of_nat len)%N || (newsize <? N.of_nat need)%N then None
-      else Some (data b ++ repeat 0%N (N.to_nat newsize - len)) in      (* memPool.Resize: fresh zeroed tail *)
+      else
+        let ns := N.to_nat newsize in
+        (* memPool.Resize: re-slice when the capacity suffices (stale bytes of an earlier cycle become
+           visible again), else a fresh slice with the first len bytes copied and a zeroed tail *)
+        if length (data b) <? ns then Some (firstn len (data b) ++ repeat 0%N (ns - len), ns)
+        else Some (data b, ns) in
   match grown with
   | None => Ok (b, false)
-  | Some d =>
+  | Some (d, len') =>
     let H := hsize (i_v4 it) in
-    if length d <? wpos b + H + add_size then Panic
+    if len' <? wpos b + H + add_size then Panic
     else
       let old := firstn H (skipn (wpos b + 1) d) in
-      Ok ({| data := splice d (wpos b) (record_bytes it old);
-             wpos := wpos b + H + add_size; rpos := rpos b; limit := limit b |}, true)
+      Ok ({| data := splice d (wpos b) (record_bytes it old); blen := len';
+             wpos := wpos b + H + add_size; rpos := rpos b; limit := limit b; initsz := initsz b |}, true)
   end.
 
 (* LocalBuffer.Next *)
 Definition buf_next (b : lbuf) : res (option item * lbuf) :=
   if wpos b <=? rpos b then Ok (None, b)
+  else if blen b <=? rpos b then Panic
   else
     match skipn (rpos b) (data b) with
     | [] => Panic
     | tag :: d1 =>
       let v4 := (tag =? 0)%N in
       let H := hsize v4 in
+      if blen b <? rpos b + H + add_size then Panic else
       match skipn H d1 with
       | t :: a :: e :: s0 :: s1 :: s2 :: s3 :: _ =>
         Ok (Some {| i_hash := firstn H d1; i_type := t; i_size := le32_get s0 s1 s2 s3; i_v4 := v4;
                     i_aux := a; i_errno := errno_of e |},
-            {| data := data b; wpos := wpos b; rpos := rpos b + H + add_size; limit := limit b |})
+            {| data := data b; blen := blen b; wpos := wpos b; rpos := rpos b + H + add_size;
+               limit := limit b; initsz := initsz b |})
       | _ => Panic
       end
     end.
 
 (* LocalBuffer.Reset *)
-Definition buf_reset (b : lbuf) : lbuf := {| data := data b; wpos := 0; rpos := 0; limit := limit b |}.
+Definition buf_reset (b : lbuf) : lbuf :=
+  {| data := data b; blen := blen b; wpos := 0; rpos := 0; limit := limit b; initsz := initsz b |}.
+
+(* end of a buffering cycle and start of the next one on the same pool element (bufferPackets'
+   deferred Reset + capLock.Release -> memPool.Put, then Lock -> memPool.Get(initialElementSize) and
+   Assign): Put re-slices to the capacity, Get hands out elem[:initial] (a fresh 2*initial element if
+   the capacity were smaller), Assign keeps it as len >= initialBufferSize. Contents are NOT cleared. *)
+Definition buf_recycle (b : lbuf) : lbuf :=
+  let mem := if length (data b) <? initsz b then repeat 0%N (2 * initsz b) else data b in
+  {| data := mem; blen := initsz b; wpos := 0; rpos := 0; limit := limit b; initsz := initsz b |}.
 
 (* ---- histories *)
-Inductive op := OAdd (it : item) | ONext | OReset.
-Inductive obs := RAdd (ok : bool) | RNext (o : option item) | RReset | RPanic.
+Inductive op := OAdd (it : item) | ONext | OReset | ORecycle.
+Inductive obs := RAdd (ok : bool) | RNext (o : option item) | RReset | RRecycle | RPanic.
 
 (* run a history; a panic ends it (trace ends with RPanic, no final state) *)
 Fixpoint run (b : lbuf) (ops : list op) : list obs * option lbuf :=
@@ -118,6 +137,7 @@ Fixpoint run (b : lbuf) (ops : list op) : list obs * option lbuf :=
     | _ => ([RPanic], None)
     end
   | OReset :: ops' => let (tr, f) := run (buf_reset b) ops' in (RReset :: tr, f)
+  | ORecycle :: ops' => let (tr, f) := run (buf_recycle b) ops' in (RRecycle :: tr, f)
   end.
 
 (* ---- well-formed inputs: what the Go types / the callers allow
@@ -131,7 +151,7 @@ Definition wf_op (o : op) : bool := match o with OAdd it => wf_item it | _ => tr
 
 (* ---- specification: a FIFO queue of items, an Add may be refused only when the record does not
    fit below the size limit any more, an accepted Add never takes the buffer beyond
-   max(limit, initial size). `used` = bytes of the records accepted since the last Reset. *)
+   max(limit, initial size). `used` = bytes of the records accepted since the last Reset / recycling of the pool element. *)
 Fixpoint list_eqb {A} (eqb : A -> A -> bool) (x y : list A) : bool :=
   match x, y with
   | [], [] => true
@@ -157,6 +177,7 @@ Fixpoint spec_ok (lim init : N) (q : list item) (used : N) (ops : list op) (tr :
     | _, _ => false
     end
   | OReset :: ops', RReset :: tr' => spec_ok lim init [] 0%N ops' tr'
+  | ORecycle :: ops', RRecycle :: tr' => spec_ok lim init [] 0%N ops' tr'
   | _, _ => false
   end.
 
